@@ -129,6 +129,19 @@ class Run(object):
                 out = ('ret', sp.isalive())
             elif op == 'wait':
                 out = ('ret', sp.wait())
+            elif op == 'wait_interrupted':
+                # a signal handler that raises (Ctrl-C, an alarm) while wait() is blocked: nothing was learnt about the child
+                def intr():
+                    raise KeyboardInterrupt()
+                act = E.Action('fn', intr)
+                env.script.insert(0, act)
+                try:
+                    out = ('ret', sp.wait())
+                except KeyboardInterrupt:
+                    out = ('interrupted', None)
+                finally:
+                    if act in env.script:
+                        env.script.remove(act)
             elif op == 'kill_term':
                 out = ('ret', sp.kill(signal.SIGTERM))
             elif op == 'kill_kill':
